@@ -380,6 +380,13 @@ ALPHABETS = {
     # control characters that are no line breaks for files or for the format readers (but are for str.splitlines)
     'ctrl_inner': (['a\x1eb', 'c\x1cd', 'e\x0bf', 'g\x0ch', 'i\x1dj', 'k\x1fl'],
                    ['p\x1eq', 'r\x1c\x1ds', 't\x0bu', 'v\x0cw', 'x\x7fy', 'z\x1ez']),
+    # labels that occupy no column on a terminal: lone combining marks, joiners, soft hyphen, variation
+    # selector (none of them is white space, a line break or a delimiter of any format)
+    'zero_width': (['\u0303', '\u200d', '\u00ad', 'x\u0301', '\u2060\u2060', '\ufe0f'],
+                   ['\u0325', '\u200c', '\u0301\u0301', '\u200b', 'q', '\u034f']),
+    # East Asian wide / fullwidth forms next to narrow ones (two columns on a terminal, one character)
+    'fullwidth': (['\uff21', '\uff22\uff23', 'a\uff24', '\u3042', '\U0001f600', 'b'],
+                  ['\uff50', 'p', '\uff51\uff52', '\u30a2x', '\U0001f60a\U0001f60a', '\uff53']),
     'long': (['o' * 40, 'a', 'bb', 'c' * 17, 'd', 'ee'], ['p', 'q' * 33, 'r', 'ss', 't' * 9, 'u']),
     # hundreds to thousands of characters, some differing only in their last character (truncation, buffers)
     'very_long': (['o' * 255 + 'x', 'o' * 255 + 'y', 'a' * 1024, 'b' * 4097, 'c' * 300, 'd'],
